@@ -35,6 +35,12 @@ def odd_names(w=3):
     o <<= t
     o2 = pyrtl.Output(w + 1, 'o2')
     o2 <<= a - c
+    # names whose natural order differs from their string order (acc[2] < acc[10] vs 'acc[10]' < 'acc[2]')
+    d2, d10 = pyrtl.Input(w, 'acc[2]'), pyrtl.Input(w, 'acc[10]')
+    o3 = pyrtl.Output(w, 'res[10]')
+    o3 <<= d2 & ~d10
+    o4 = pyrtl.Output(w, 'res[9]')
+    o4 <<= d10 | d2
 
 
 def module_replay(design, add_reset, inputs, regs, mems):
